@@ -93,6 +93,11 @@ def run_cases(mod, cases, stats, collect_cover=True):
     signal.signal(signal.SIGALRM, _alarm)
     if hasattr(mod, "setup"):
         mod.setup(stats)
+    import numpy as _np
+    import os as _os
+    base_state = {"numpy floating-point error handling (np.geterr)": dict(_np.geterr()),
+                  "numpy print options": {k: v for k, v in _np.get_printoptions().items() if k in ("threshold", "precision", "edgeitems", "linewidth", "suppress")},
+                  "current working directory": _os.getcwd()}
     for case in cases:
         ctx = Ctx(stats, case)
         signal.alarm(CASE_TIMEOUT_S)
@@ -110,6 +115,21 @@ def run_cases(mod, cases, stats, collect_cover=True):
         finally:
             signal.alarm(0)
             contracts.end_case()
+        # process-wide settings the library has no business changing: a later call in the same process would behave differently
+        now_state = {"numpy floating-point error handling (np.geterr)": dict(_np.geterr()),
+                     "numpy print options": {k: v for k, v in _np.get_printoptions().items() if k in base_state["numpy print options"]},
+                     "current working directory": _os.getcwd()}
+        for k_, v_ in now_state.items():
+            if v_ != base_state[k_]:
+                ctx.fail("the code under observation left %s changed: %s -> %s (what later calls in the same process do now differs from what the API does in a fresh one)" %
+                         (k_, base_state[k_], v_), witness={"setting": k_})
+                if k_.startswith("numpy floating"):
+                    _np.seterr(**base_state[k_])
+                elif k_.startswith("numpy print"):
+                    _np.set_printoptions(**base_state[k_])
+                else:
+                    _os.chdir(base_state[k_])
+        stats.count("process_wide_settings_compared")
         out["n"] += 1
         # contract failures recorded while this case ran that the case itself did not turn into a verdict
         # keep every distinct mechanism visible: violations are capped per key (known-finding floods must not
